@@ -589,8 +589,56 @@ theorem rs_obs (s s' : St) (e : Ev) (o : Obs) (b : Book) (hi : Inv s) (hk : RK s
       (fun y thy' wk h1 h2 => ⟨thy', h1, h2⟩) (fun u c' h _ => ⟨c', h, fun x hx => hx⟩)
   | quiesce bb B =>
     simp [Ev.obs] at ho; subst ho
-    simp only [step] at hs; split at hs <;> simp at hs; subst hs
-    exact hR
+    simp only [step] at hs; split at hs <;> simp at hs
+    rename_i hq
+    obtain ⟨hq, rfl, _⟩ := hq
+    subst hs
+    -- a pending awaiter is parked on the present content: its `seen` restarts from the candidates
+    refine ⟨?_⟩
+    intro u thu c' hu hc' hcont
+    simp only [Book.update] at hc'
+    rw [resetSeen_get] at hc'
+    cases hcu : b.calls[u]? with
+    | none => simp [hcu] at hc'
+    | some c =>
+      simp [hcu] at hc'; subst hc'
+      have hkr := hk.call u thu c hu hcu
+      have hqt : Th.quiet s thu = true := by
+        simp only [quiescent, List.all_eq_true] at hq
+        exact hq thu (List.mem_of_getElem? hu)
+      have hmem : u ∈ pendingIds s := by
+        simp only [pendingIds, List.mem_filter, List.mem_range]
+        refine ⟨lt_of_getElem? hu, ?_⟩
+        simp [hu]
+        cases hts : thu.ts <;> simp [hts, TS.isCont] at hcont <;> rfl
+      have hok := hi.th u thu hu
+      have hcand := slot_mem_candidates s b hk hw
+      have hglob : GlobOK s b.candidates :=
+        ⟨hcand, fun y thy wk hy hts => pending_writer_candidate s b hk hw y thy wk hy hts⟩
+      unfold Th.quiet at hqt
+      cases hts : thu.ts <;> simp only [hts] at hqt hcont <;> try (simp [TS.isCont] at hqt hcont)
+      · -- cNil
+        rename_i k c0
+        have hkind : c.kind = .cawait k := by rw [hkr.kind, hts]; rfl
+        have hseen : (resetOne b (pendingIds s) u c).seen = b.candidates := by
+          simp [resetOne, hkind, hmem]
+        rw [hseen]
+        simp only [ThOK, hts] at hok
+        have hsl := hok.2 hqt.2
+        refine ⟨hglob, ?_⟩
+        simp only [SeenOK, hts]
+        rw [← hsl]; exact hcand
+      · -- cInner
+        rename_i k r c0
+        have hkind : c.kind = .cawait k := by rw [hkr.kind, hts]; rfl
+        have hseen : (resetOne b (pendingIds s) u c).seen = b.candidates := by
+          simp [resetOne, hkind, hmem]
+        rw [hseen]
+        simp only [ThOK, hts] at hok
+        have hsl := hok.2.1 hqt.1.2
+        refine ⟨hglob, ?_⟩
+        simp only [SeenOK, hts]
+        rw [← hsl]; exact hcand
   | invSet t p v e' =>
     simp [Ev.obs] at ho; subst ho
     simp only [step] at hs; split at hs <;> simp at hs; subst hs
